@@ -39,3 +39,28 @@ spec fn node_frame(a: Node, b: Node) -> bool {
     a.id == b.id && a.page_id == b.page_id && a.num_pages == b.num_pages && a.children == b.children && a.deleted == b.deleted
         && a.parent == b.parent && a.pagesize == b.pagesize && a.spilled == b.spilled
 }
+
+// entries built so far mirror the first entries of the page (taking `&Vec<..>` fixes the element type of a vector whose
+// type the real code leaves to inference)
+spec fn branches_mirror(d: &Vec<Branch>, p: Page, n: int) -> bool {
+    d@.len() == n && forall|i: int| 0 <= i < d@.len() ==> (#[trigger] d@[i]).key_seq() == page_branch_elems(p)[i].key_seq()
+        && d@[i].page == page_branch_elems(p)[i].page
+}
+spec fn leaves_mirror(d: &Vec<Leaf>, p: Page, n: int) -> bool {
+    d@.len() == n && forall|i: int| 0 <= i < d@.len() ==> leaf_mirrors(#[trigger] d@[i], page_leaf_elems(p)[i])
+}
+// well-formed leaf page: every element is a key/value pair or a nested bucket (file well-formedness, C05 of the state read)
+spec fn pn_kinds_ok(pn: PageNode) -> bool {
+    match pn {
+        PageNode::Page(p) => p.page_type == 2 ==> forall|i: int| 0 <= i < page_leaf_elems(*p).len()
+            ==> (#[trigger] page_leaf_elems(*p)[i]).node_type == 0 || page_leaf_elems(*p)[i].node_type == 1,
+        PageNode::Node(_) => true,
+    }
+}
+// the entry slot i of a resolved leaf holds, as (key, is-a-pair, payload): what a read through either representation must return
+spec fn pn_entry_is(pn: PageNode, i: int, l: Leaf) -> bool {
+    match pn {
+        PageNode::Page(p) => leaf_mirrors(l, page_leaf_elems(*p)[i]),
+        PageNode::Node(n) => n.cur().data matches NodeData::Leaves(ls) && leaf_same(l, ls@[i]),
+    }
+}
